@@ -27,4 +27,8 @@ def scenarios(tier):
             ("SETEXT", (("M204", "merge"),)), ("SETEXT", (("G4", "exclude"), ("M117", "last"), ("M204", "merge")))]
     cfg = dict(prop="C10", monitors=(), regions=["R"], emax=1, key_depth=False, maxregions=2,
                probe_depth=2 if q else 3, exit="M400\n", enter="M300 S1\n")
-    return [Scenario("c10-restart", World, cfg, menu, max_depth=5 if q else 7, max_states=40000 if q else 1500000)]
+    small = [m for m in menu if m[0] in ("C10CHECK", "TRAVEL", "RETRACT", "RECOVER", "AT", "INCH", "REL", "EV") or m == ("RAW", "M117 x")]
+    return [Scenario("c10-restart", World, cfg, menu, max_depth=5 if q else 7, max_states=40000 if q else 1500000),
+            Scenario("c10-restart-sd", World, dict(cfg, c10_payload={"origin": "sdcard", "name": "f.gco", "path": "f.gco"}),
+                     small, max_depth=5 if q else 7, max_states=40000 if q else 1500000,
+                     note="the next print is started from the printer's SD card (event payload origin=sdcard)")]
